@@ -131,6 +131,20 @@ func c20(c *Ctx) {
 				fromRef = false
 			}
 		}
+		// the identifier is removed as a suffix, not used as a character set
+		for _, x := range cfgx.Calls(ps, nil) {
+			usesID := false
+			for _, a := range cfgx.CallArgs(x) {
+				if hasSuffixCall(a, "name.Reference).Identifier") {
+					usesID = true
+				}
+			}
+			if !usesID {
+				continue
+			}
+			n := cfgx.CalleeName(x)
+			c.R.Check(n == "strings.TrimSuffix" || n == "strings.CutSuffix" || n == "strings.HasSuffix", load.FuncName(ps)+": "+site(x)+" identifier as suffix", c.pos(x.Pos()), "the identifier is cut off as a suffix", "the identifier is handed to "+n+", which does not remove it as a suffix (TrimRight treats it as a set of characters and eats into the repository name)")
+		}
 		c.R.Check(structured && fromRef, load.FuncName(ps)+": structured", c.pos(ps.Pos()), "the source is the reference's own string without the identifier (or its repository context) as the parsed reference reports them", "the package source is not derived from the parsed reference's Identifier()/Context(): delimiters found in the string are not necessarily the tag or digest separator (registry ports)")
 	}
 
@@ -285,6 +299,24 @@ func c20(c *Ctx) {
 					c.requireCross(load.FuncName(fn)+": new signer after acknowledged write", r, okW, "ok(Create/Update(CA secret))")
 				}
 			}
+		}
+	}
+
+	c.R.Rule("R20.7", "a certificate is issued with the signer's certificate as parent and the signer's key", 1,
+		"a leaf issued with itself as parent carries the wrong issuer: it does not chain to the stored CA unless the CA happens to have the same subject")
+	if gen := c.P.Method(pkgInit, "CertGenerator", "Generate"); gen != nil {
+		c.mech(gen)
+		cs := calls(gen, "crypto/x509.CreateCertificate")
+		if c.expect("CreateCertificate", len(cs), 1, gen) {
+			a := cfgx.CallArgs(cs[0])
+			fieldOfSigner := func(v ssa.Value, field string) bool {
+				return flow.Default.Any(v, func(x ssa.Value) bool {
+					fa, ok := x.(*ssa.FieldAddr)
+					return ok && fieldName(fa.X.Type(), fa.Field) == field && strings.HasSuffix(fa.X.Type().String(), "CertificateSigner")
+				})
+			}
+			tmpl := flow.Root(underIface(a[1])) == ssa.Value(gen.Params[len(gen.Params)-2])
+			c.R.Check(len(a) == 5 && tmpl && fieldOfSigner(a[2], "certificate") && fieldOfSigner(a[4], "key"), site(cs[0])+" parent and key", c.pos(cs[0].Pos()), "CreateCertificate(template=cert, parent=signer.certificate, …, priv=signer.key)", "the certificate is not created with the signer's certificate as parent and the signer's key")
 		}
 	}
 
